@@ -687,9 +687,9 @@ func (e *Env) call(x ECall) Binding {
 		}
 		switch p.T.Sort {
 		case SPtr:
-			return Binding{Term{fmt.Sprintf("(and (not (= %s pnil)) ((_ is pobj) %s) (>= (rootid %s) %s))", p.T.S, p.T.S, p.T.S, e.old.st.alloc.S), SBool}, types.Typ[types.Bool]}
+			return Binding{Term{fmt.Sprintf("(and (not (= %s pnil)) ((_ is pobj) %s) (>= (rootid %s) %s) (< (rootid %s) %s))", p.T.S, p.T.S, p.T.S, e.old.st.alloc.S, p.T.S, e.st.alloc.S), SBool}, types.Typ[types.Bool]}
 		case SSlice:
-			return Binding{Term{fmt.Sprintf("(>= (rootid (sbase %s)) %s)", p.T.S, e.old.st.alloc.S), SBool}, types.Typ[types.Bool]}
+			return Binding{Term{fmt.Sprintf("(and (>= (rootid (sbase %s)) %s) (< (rootid (sbase %s)) %s))", p.T.S, e.old.st.alloc.S, p.T.S, e.st.alloc.S), SBool}, types.Typ[types.Bool]}
 		}
 		evalFail("fresh() on sort %s", p.T.Sort)
 	case "allocated":
